@@ -36,6 +36,20 @@ Tie to /repo (built from its CURRENT tree, ASan+UBSan, asserts on):
       of a built-in call is a function of its own arguments - the expected exception / value never looks at
       the prefix, so "same outcome with any prefix" is what every program of the grid checks; the rows with
       the empty prefix confirm the table itself.
+  (1c)/(3c) completeness over fault sites: harness/c03/faultsites.py enumerates every `machine->running = VM_EXCEPTION`
+      of back/vmexec.c, libvm.c, vmffi.c (handler function, macro instantiations expanded, exception constant assigned
+      in the same block, opcodes that dispatch to it, helpers through their callers).  A site that assigns no
+      exception (other than RETHROW) is reported on the spot (`site-raises-without-exception:<site>`): the clause that
+      takes such a fault depends on history.  faultgen SITE_PROBES (array / matrix operators per element kind with
+      nil operands and mismatching sizes, matrix product, array creation with bad extents per element kind, range of
+      range / slice of slice / slice of string / array, range, slice, string index per dimension and bound, nil
+      record / array / string / function / range / slice per operation, string concatenation and comparison per kind,
+      division and modulo per numeric kind, every failing class of the math built-ins, FFI) run (a) with the matching
+      typed clause placed after a clause for ANOTHER exception that was raised and handled earlier in the same run,
+      (b) with that stale clause + other non-matching clauses + catch-all, (c) without any clause (the report must
+      name the exception), (d) as control with a non-zero trigger.  Which site a probe reaches is measured (opcode
+      of the fault in the traced run): coverage.fault_sites.site_x_probe; sites without a probe are listed in the
+      evidence (NOTE_uncovered_fault_sites), not reported as violations.
   (4) block-boundary test: the same programs with the exception-table block split right after
       the faulting address (harness/c03/excdump.c): the VM must look the handler up for ip-1.
 
@@ -57,6 +71,7 @@ from checks.parts import exctab as exctab_part
 
 sys.path.insert(0, os.path.join(common.VERIF, "harness", "c03"))
 import faultgen  # noqa: E402
+import faultsites  # noqa: E402
 
 LEVEL = "proof"
 
@@ -381,6 +396,29 @@ def run(ctx):
     builtin_flags_part(ctx, lib)
     timing["builtin_flags_s"] = round(time.time() - t1, 1)
 
+    # ---- (1c) every place of the VM that raises an exception (harness/c03/faultsites.py)
+    t1 = time.time()
+    sites = faultsites.sites(common.REPO)
+    nraise = 0
+    for fn in ("vmexec.c", "libvm.c", "vmffi.c"):
+        try:
+            txt = faultsites._strip_comments(open(os.path.join(common.REPO, "back", fn)).read())
+            nraise += len(re.findall(r"machine->running\s*=\s*VM_EXCEPTION", txt))
+        except OSError:
+            pass
+    ctx.obligation("fault-site translator accounts for every `machine->running = VM_EXCEPTION` of back/vmexec.c, libvm.c, vmffi.c",
+                   len({(x["file"], x["line"]) for x in sites}) == nraise,
+                   {"assignments_in_source": nraise, "sites_located": len({(x["file"], x["line"]) for x in sites})})
+    for x in sites:
+        if not x["exceptions"] and x["func"] not in faultsites.PRESERVING:
+            src_lines = open(os.path.join(common.REPO, "back", x["file"]), errors="replace").read().split("\n")
+            ctx.violation("site-raises-without-exception:%s" % x["id"],
+                          "back/%s:%d (%s, reached by %s) sets VM_EXCEPTION without assigning machine->exception: the clause that takes "
+                          "the fault is selected by whatever exception was raised before" % (x["file"], x["line"], x["func"],
+                                                                                          ",".join(x["opcodes"]) or "?"),
+                          {"kind": "site", "site": x, "source": "\n".join(src_lines[max(0, x["line"] - 8):x["line"] + 3])})
+    timing["fault_sites_s"] = round(time.time() - t1, 1)
+
     # ---- programs: corpus first, then the generated family
     fam = []                                      # (pid, source, expected, coords)
     for f in sorted(glob.glob(os.path.join(CORPUS, "*.json"))):
@@ -429,8 +467,9 @@ def run(ctx):
             ctx.correspondence_broken("fault-program-does-not-compile:%s" % coords_key(coords),
                                       {"program": src, "detail": text, "output": (r or {}).get("text", "")[:1500]})
             continue
-        if per_class[cls] <= 3:
-            ctx.violation("delivery:%s:%s" % (cls, coords_key(coords)),
+        site_probe = coords.split(":")[1] if coords.startswith("site:") else None
+        if site_probe or per_class[cls] <= 3:
+            ctx.violation(("delivery:%s:site:%s" % (cls, site_probe)) if site_probe else "delivery:%s:%s" % (cls, coords_key(coords)),
                           "fault program %s: %s" % (pid, text),
                           {"kind": "program", "program": src, "case": {"id": pid, "coords": coords},
                            "expected": exp, "observed": {k: (r or {}).get(k) for k in ("outcome", "unhandled", "out", "status", "text")}})
@@ -524,6 +563,7 @@ def run(ctx):
         lay = layout_check(d, names)
         fs = fault_steps(d, names) if trace else []
         d2 = {"end": d["end"], "out": d["out"], "nfaults": len(fs), "first_fault": splittable(d, names, fs),
+              "fault_ops": [names[d["code"][a][0]] for _i, a in fs],
               "ntrace": len(d["trace"]), "nexct": len(d["exct"]), "ncode": len(d["code"]),
               "clear": sum(1 for c in d["code"] if names[c[0]] == "BYTECODE_CLEAR_STACK")}
         try:
@@ -535,9 +575,12 @@ def run(ctx):
     split_cands = []
     shapes = set()
     first_samples = []
+    probe_ops = collections.defaultdict(collections.Counter)     # probe -> opcode at which its fault was raised
     for w, v, d2, lay, err in vmcheck.pmap(one_mod, work):
         kind, key, pid, path, cwd, trace = w
         label = fam[key][0] if kind == "fam" else key
+        if kind == "fam" and d2 is not None and fam[key][3].startswith("site:") and ":control:" not in fam[key][3] and d2["fault_ops"]:
+            probe_ops[fam[key][3].split(":")[1]][d2["fault_ops"][-1]] += 1
         if v is None:
             if kind == "fam" and key not in bad_ids:
                 ctx.correspondence_broken("dump-does-not-compile:%s" % label, {"program": label, "stderr": err[-600:]})
@@ -553,6 +596,11 @@ def run(ctx):
             ctx.correspondence_broken("emitter-layout:%s" % re.sub(r"\d+", "N", what)[:80],
                                       {"program": label, "addr": a, "what": what, "source": src})
         ver, lock = v["verify"], v["lockstep"]
+        if kind == "fam" and key in bad_ids and not ver:
+            # the run of this program already failed the property's oracle (reported above, e.g. a crash of the VM):
+            # the traced dump is incomplete, there is no module to verify
+            stats["modules_of_failed_programs_skipped"] += 1
+            continue
         if not ver.startswith("VERIFY ok"):
             stats["verify_fail"] += 1
             wit = v.get("witness", "")
@@ -596,6 +644,30 @@ def run(ctx):
             first_samples.append({"program": label, "module": v["module"], "verify": ver, "lockstep": lock,
                                   "faults_in_trace": d2["nfaults"], "expected": fam[key][2]})
     timing["modules_s"] = round(time.time() - t1, 1)
+
+    # ---- fault sites x probes
+    if not getattr(ctx, "replay", None):
+        pexc = {n: e for (n, e, _t) in faultgen.SITE_PROBES}
+        table, uncovered = {}, []
+        for x in sites:
+            if x["func"] in faultsites.PRESERVING:
+                continue
+            hit = sorted(pn for pn, ops in probe_ops.items() if pexc.get(pn) in x["exceptions"] and any(o in x["opcodes"] for o in ops))
+            ops_hit = sorted({o for pn in hit for o in probe_ops[pn] if o in x["opcodes"]})
+            table[x["id"]] = {"at": "%s:%d" % (x["file"], x["line"]), "raises": x["exceptions"], "opcodes": x["opcodes"],
+                              "opcodes_reached": ops_hit, "probes": hit}
+            if not hit:
+                uncovered.append("%s (%s:%d, %s)" % (x["id"], x["file"], x["line"], ",".join(x["exceptions"])))
+        nprobed = len([1 for v_ in table.values() if v_["probes"]])
+        ctx.coverage["fault_sites"] = {
+            "sites": len(table), "sites_with_a_probe": nprobed, "probes": len(faultgen.SITE_PROBES),
+            "probes_that_raised_at_a_listed_site": len([pn for pn in probe_ops if any(pn in v_["probes"] for v_ in table.values())]),
+            "rule": "a probe reaches a site when the traced run of its unhandled / clause variants raises at an opcode dispatched to the "
+                    "site's handler and the probe's stated exception is the one the site assigns; sites of one handler with the same "
+                    "exception are not told apart by the measurement (their probes are listed under each)",
+            "site_x_probe": table}
+        ctx.notes["NOTE_uncovered_fault_sites"] = uncovered
+        ctx.count(nontrivial=nprobed)
 
     # ---- (4) block boundary right after the faulting address
     t1 = time.time()
